@@ -5,23 +5,23 @@ import os
 OB = '/verif/lean/obligations'
 USES = {
  'C01': ['Slice', 'SliceFns', 'Str', 'StrFns', 'Chr', 'Bytes', 'Bytes2', 'BytesTrim', 'Chars', 'SliceIter', 'Split', 'SplitTerm', 'Array', 'CStr', 'SliceIter2'],
- 'C11': ['Array'],
- 'C15': ['Array'],
+ 'C11': ['Array', 'ProbesArr'],
+ 'C15': ['Array', 'ProbesArr'],
  'C02': ['Slice', 'SliceFns', 'SliceIter'],
  'C03': ['Slice', 'Str', 'StrFns'],
  'C04': ['Slice', 'Bytes', 'Bytes2', 'StrFns', 'ParserB'],
  'C05': ['Bytes', 'Bytes2', 'BytesTrim', 'StrFns'],
- 'C06': ['Slice', 'Str', 'Bytes', 'Bytes2', 'StrFns', 'Split', 'SplitTerm'],
+ 'C06': ['Slice', 'Str', 'Bytes', 'Bytes2', 'StrFns', 'Split', 'SplitTerm', 'ProbesMisc'],
  'C07': ['Chr', 'Str', 'Slice', 'StrFns', 'Chars'],
  'C08': ['Slice', 'SliceFns', 'SliceIter', 'SliceIter2'],
  'C09': ['Range', 'RangeIter'],
  'C12': ['Str', 'ParseInt', 'ParsePrim'],
  'C13': ['Str', 'StrFns', 'ParserA', 'ParserB', 'ParseInt'],
  'C14': ['Bytes', 'Bytes2', 'BytesTrim', 'StrFns', 'ParserA', 'ParserB', 'ParseInt'],
- 'C16': ['Cmp', 'Cmp2'],
+ 'C16': ['Cmp', 'Cmp2', 'ProbesMisc'],
  'C18': ['StrFns', 'ParserA', 'ProbesPm'],
  'C20': ['Chr', 'Slice', 'Concat', 'CStr'],
- 'C19': ['ProbesOpt'],
+ 'C19': ['ProbesOpt', 'ProbesMisc'],
  'C10': ['SliceIter2', 'ProbesIter', 'ProbesIterModel'],
 }
 for p, ms in USES.items():
